@@ -117,10 +117,12 @@ pub fn braille_mathml(mathml: Element, nav_node_id: &str) -> Result<(String, usi
                 }
             }
             let indicators = &braille[prefix_ch_index..start_index];   // chars to be examined
-            let i_byte_start = start_index - 3 * match braille_code {
+            let n_indicator_chars = match braille_code {
                 "Nemeth" => i_start_nemeth(indicators, first_ch),
                 _ => i_start_ueb(indicators),               // treat all the other like UEB because they probably have similar number and letter prefixes
             };
+            // there can't be more indicators than there are chars (e.g., the capital word indicator "⠠⠠" looks like the start of a three char Hebrew indicator)
+            let i_byte_start = start_index - 3 * std::cmp::min(n_indicator_chars, indicators.len()/3);
             if i_byte_start < start_index {
                 // remove old highlight as long as we don't wipe out the end highlight
                 if start_index < end_index {
